@@ -6,7 +6,7 @@ from concurrent.futures import ThreadPoolExecutor
 from . import core
 
 
-def run(module, run_lines, decoded, wd, corruptions, overrides=False, extra_env=None):
+def run(module, run_lines, decoded, wd, corruptions, overrides=False, extra_env=None, cfg=None):
     """corruptions: list of (name, fn(list of event dicts) -> list of event dicts or None)"""
     evs = [json.loads(l) for l in run_lines]
     jobs = []
@@ -23,7 +23,7 @@ def run(module, run_lines, decoded, wd, corruptions, overrides=False, extra_env=
         raise core.ToolError("binding self-test: no corruption applicable to the sample run")
     def work(j):
         name, p = j
-        return name, core.tv_once(module, p, decoded, wd, overrides=overrides, extra_env=extra_env)
+        return name, core.tv_once(module, p, decoded, wd, overrides=overrides, extra_env=extra_env, cfg=cfg)
     done = []
     with ThreadPoolExecutor(max_workers=6) as ex:
         for name, res in ex.map(work, jobs):
